@@ -41,7 +41,7 @@ LEVEL_NOTE = ("Trusted: Coq kernel, extraction, translator harness/translate/c01
               "model: the generators do not produce its trigger and it is classified by a harness-side predicate. Source text <-> ast positions are CPython's.")
 MODEL = ("Model.C01_visitor", "run_C01")
 COQ_TARGETS = ["Proofs/C01_visitor.vo", "Proofs/C01_vis.vo"]
-RULE = ("seeded random structural modules (nesting <=4; name pool of 9 with forced duplicates; decorators from the label tables, overload, "
+RULE = ("seeded random structural modules (nesting <=4; name pool of 11 (incl. _t__, z__) with forced duplicates; decorators from the label tables, overload, "
         "accessor, unknown; docstrings in every legal position incl. attribute docstrings, after if/for/try bodies; conditional placement in "
         "if/elif/else, TYPE_CHECKING (plain, typing., negated, nested), try/except/else/finally, for/while/else, with, match; __init__ "
         "instance attributes incl. conditional, annotated, dotted, tuple; __all__ forms incl. +=, concatenation, empty, annotated; imports: "
@@ -205,7 +205,7 @@ class Abstraction:
         if isinstance(s, ast.Match):
             return ["block", [["sub", False, self.stmts(c.body)] for c in s.cases]]
         if isinstance(s, ast.Expr) and isinstance(s.value, ast.Constant) and isinstance(s.value.value, str):
-            return ["doc", s.lineno, s.end_lineno]
+            return ["doc", s.value.lineno, s.value.end_lineno]      # the string constant's own span, not the statement's
         return ["other"]
 
 
@@ -381,7 +381,7 @@ def norm_model_result(r):
 # =====================================================================================================================
 # generator of structural modules
 # =====================================================================================================================
-POOL = ["a", "b", "x", "f", "C", "_p", "__q", "__d__", "y"]
+POOL = ["a", "b", "x", "f", "C", "_p", "__q", "__d__", "y", "_t__", "z__"]
 PREAMBLE = [
     "import functools, abc, dataclasses, contextlib",
     "import typing",
@@ -430,10 +430,19 @@ class Gen:
             self.emit(ind, f'"cat {n}" " enated"')
         elif r < 0.85:
             self.emit(ind, f'r"""raw \\d {n}"""')
-        elif r < 0.92:
+        elif r < 0.90:
             self.lines.append(f'{pad}"""\n{pad}   Leading blank {n}.\n{pad}"""')
-        else:
+        elif r < 0.94:
             self.emit(ind, f'"""  spaced {n}  """')
+        elif r < 0.96:
+            self.lines.append(f'{pad}(\n{pad}    "paren {n}"\n{pad})')
+            self.features.add("docstring-parenthesised")
+        elif r < 0.98:
+            self.lines.append(f'{pad}(\n{pad}    "cat {n}"\n{pad}    " over lines"\n{pad})')
+            self.features.add("docstring-parenthesised")
+        else:
+            self.lines.append(f'{pad}(\n{pad}    """commented {n}"""\n{pad}    # trailing comment\n{pad})')
+            self.features.add("docstring-parenthesised")
         self.features.add("docstring")
 
     def nondoc_expr(self, ind):
@@ -908,11 +917,15 @@ def guard_map(tree):
 
 
 def node_index(tree):
-    """(lineno of the statement) -> node, for every statement anywhere (one statement per line in generated code)."""
+    """(lineno of the statement) -> node, for every statement anywhere (one statement per line in generated code);
+    a string expression statement is also reachable through the line of its string constant (parenthesised docstrings)."""
     idx = {}
     for n in ast.walk(tree):
         if isinstance(n, ast.stmt):
             idx.setdefault(n.lineno, n)
+    for n in ast.walk(tree):
+        if isinstance(n, ast.Expr) and isinstance(n.value, ast.Constant) and isinstance(n.value.value, str):
+            idx.setdefault(n.value.lineno, n)
     return idx
 
 
@@ -1374,6 +1387,29 @@ def runtime_checks(case, tree, mod):
             if getattr(cls, "__qualname__", None) != s.name:
                 continue
             level(s.name, m, s.body, [n for n in vars(cls) if n not in AUTO_CLASS], lambda n, c=cls: vars(c)[n], True)
+    # what `from m import *` binds in CPython vs is_wildcard_exposed / is_public of the module-level members
+    if not star:
+        declared = ns.get("__all__") if isinstance(ns.get("__all__"), (list, tuple)) else None
+        all_stmts_direct = all(b["direct"] for b in supported_bindings(tree.body).get("__all__", []))
+        if (declared is None) == (mod.exports is None) and all_stmts_direct and (declared is None or all(isinstance(e, str) for e in (mod.exports or []))):
+            star_names = set(declared) if declared is not None else {n for n in ns if not n.startswith("_")}
+            for name, m in mod.members.items():
+                if name not in ns or name.endswith("/*") or not m.runtime:
+                    continue
+                if declared is not None and list(declared) != [e for e in mod.exports]:
+                    break
+                try:
+                    exposed = bool(m.is_wildcard_exposed)
+                except Exception as e:  # noqa: BLE001
+                    fails.append(("star-import", f"is_wildcard_exposed of {name!r} raises {type(e).__name__}", None))
+                    continue
+                if exposed != (name in star_names):
+                    fails.append(("star-import", f"{name!r}: is_wildcard_exposed={exposed} but `from m import *` {'binds' if name in star_names else 'does not bind'} it", None))
+                # without __all__ and for non-imported members, public-by-convention = bound by the star import or special
+                if declared is None and not m.is_alias and name not in mod.imports and m.public is None:
+                    conv = (not name.startswith("_")) or (name.startswith("__") and name.endswith("__"))
+                    if bool(m.is_public) != conv:
+                        fails.append(("star-import", f"{name!r}: is_public={m.is_public} but the underscore convention says {conv}", None))
     # exports
     if "__all__" in ns and mod.exports is not None and not star:
         ex = export_items(mod.exports)
@@ -1811,7 +1847,7 @@ def synthetic_visibility(ctx):
     """Exhaustive small space of hand-built objects for the visibility predicates."""
     import griffe
     items = {}
-    names = ["x", "_x", "__x", "__x__", "_", "__", "x__"]
+    names = ["x", "_x", "__x", "__x__", "_", "__", "x__", "_x__", "_x___", "___", "x_", "__x_"]
     for name in names:
         for pkind in ("none", "module", "class"):
             for exports in (None, [], [name], ["other"], ["other", name]):
